@@ -19,7 +19,7 @@
  *        -> ret <v>... pages <p> size <s>
  *   grow_sched alloc <initialPages> <maxPages> <shared>                   -> size <s> pages <p> max <m>
  *   grow_sched touch <initialPages> <maxPages> <shared> <byteOffset>      store one byte (run under ASan)
- *   grow_sched stress <threads> <iterations>                              free-running (run under TSan)
+ *   grow_sched stress <growers> <iterations> <sizeReaders>               free-running (run under TSan)
  */
 #include <stdio.h>
 #include <stdlib.h>
@@ -154,17 +154,18 @@ static int cmd_touch(char** argv) {
 /* free-running stress for ThreadSanitizer: growers and size readers on one shared memory */
 static wasmMemory* stressMem;
 static int stressIter;
-static U32 sink;
-static void* stressGrow(void* a) { int i; (void)a; for (i = 0; i < stressIter; i++) sink += wasmMemoryGrow(stressMem, 1); return NULL; }
-static void* stressSize(void* a) { int i; (void)a; for (i = 0; i < stressIter; i++) sink += stressMem->pages; return NULL; }
+static U32 sinks[2 * MAXT];
+static void* stressGrow(void* a) { int i; U32 acc = 0; for (i = 0; i < stressIter; i++) acc += wasmMemoryGrow(stressMem, 1); *(U32*)a = acc; return NULL; }
+static __attribute__((noinline)) U32 memorySize(wasmMemory* m) { return m->pages; }   /* `si = m->pages;` as emitted by c.c */
+static void* stressSize(void* a) { int i; U32 acc = 0; for (i = 0; i < stressIter; i++) acc += memorySize(stressMem); *(U32*)a = acc; return NULL; }
 
 static int cmd_stress(char** argv) {
     int n = atoi(argv[2]), i, withSize = atoi(argv[4]);
     pthread_t th[2 * MAXT];
     stressIter = atoi(argv[3]);
     stressMem = wasmMemoryAllocate(1, 60000, true);
-    for (i = 0; i < n; i++) pthread_create(&th[i], NULL, stressGrow, NULL);
-    for (i = 0; i < withSize; i++) pthread_create(&th[n + i], NULL, stressSize, NULL);
+    for (i = 0; i < n; i++) pthread_create(&th[i], NULL, stressGrow, &sinks[i]);
+    for (i = 0; i < withSize; i++) pthread_create(&th[n + i], NULL, stressSize, &sinks[n + i]);
     for (i = 0; i < n + withSize; i++) pthread_join(th[i], NULL);
     printf("pages %u expected %u\n", stressMem->pages, 1 + (U32)(n * stressIter));
     return 0;
